@@ -515,6 +515,19 @@ impl Drop for Occ {
     }
 }
 
+/// a loopback address of this process' own (the whole of 127/8 is local): every socket pair gets a fresh one, so that the
+/// tens of thousands of TIME-WAIT entries a run leaves behind never exhaust the port space of one address ("Address
+/// already in use" on the next check, which used to end as inconclusive executions)
+pub fn lo() -> String {
+    static N: AtomicU32 = AtomicU32::new(0);
+    let n = N.fetch_add(1, Relaxed);
+    let pid = std::process::id();
+    format!("127.{}.{}.{}", 1 + pid % 250, 1 + (pid / 250 + n / 250) % 250, 1 + n % 250)
+}
+pub fn lo0() -> String {
+    format!("{}:0", lo())
+}
+
 pub fn is_cancel_panic(e: &Box<dyn std::any::Any + Send>) -> bool {
     e.downcast_ref::<generator::Error>().map(|g| *g == generator::Error::Cancel).unwrap_or(false)
 }
